@@ -6,18 +6,20 @@ package main
 
 import (
 	"encoding/json"
+	"errors"
 	"fmt"
 	"os"
 	"path/filepath"
 	"sort"
 	"strings"
+	"time"
 
 	"ergo.services/ergo/gen"
 )
 
 func init() {
 	props["C01"] = func(c *Ctx) { runProcK3(c, "C01"); runMetaK3(c, "C01") }
-	props["C05"] = func(c *Ctx) { runProcK3(c, "C05"); runMetaK3(c, "C05") }
+	props["C05"] = func(c *Ctx) { runProcK3(c, "C05"); runMetaK3(c, "C05"); c05supReason(c) }
 	props["C02"] = func(c *Ctx) { runProcK3(c, "C02"); runC02Extra(c) }
 }
 
@@ -245,3 +247,88 @@ func runProcK3(c *Ctx, prop string) {
 }
 
 func isDoubleKill(run *k3run) bool { return run.kills >= 2 }
+
+// c05supReason: a supervisor that is being shut down by an exit signal from outside terminates with THAT reason, also
+// when the child whose exit arrives last died for a reason of its own (it was busy and got killed meanwhile).
+func c05supReason(c *Ctx) {
+	r := c.R
+	k, err := NewK4("c05s")
+	if err != nil {
+		return
+	}
+	defer k.Stop()
+	rounds := c.N(12, 200)
+	for it := 0; it < rounds; it++ {
+		l := &c10log{}
+		// the first rounds enumerate supervisor type x cause of the last child's death; later rounds are random
+		spec := &c10spec{Kind: "sup", SupType: it % 3, Strategy: c.Rng.Intn(3), Keep: c.Rng.Bool(),
+			Children: []*c10spec{{Kind: "leaf"}, {Kind: "leaf"}, {Kind: "leaf"}}}
+		sup, err := k.Node.Spawn(c10factory(l, spec), gen.ProcessOptions{})
+		if err != nil {
+			continue
+		}
+		c10settle(k, l)
+		var kids []gen.PID
+		for _, e := range l.snapshot() {
+			if e.kind == "spawn" && e.pid != sup {
+				kids = append(kids, e.pid)
+			}
+		}
+		if len(kids) < 2 {
+			k.Node.Kill(sup)
+			continue
+		}
+		busy := kids[c.Rng.Intn(len(kids))]
+		b := c10block{entered: make(chan struct{}), gate: make(chan struct{})}
+		k.Node.Send(busy, b)
+		select {
+		case <-b.entered:
+		case <-time.After(2 * time.Second):
+			k.Node.Kill(sup)
+			continue
+		}
+		cause := errors.New("stop-requested-from-outside")
+		k.Node.SendExit(sup, cause)
+		// the other children obey the forwarded shutdown
+		waitUntil(2*time.Second, func() bool {
+			n := 0
+			for _, kid := range kids {
+				if kid != busy && !k.Alive(kid) {
+					n++
+				}
+			}
+			return n == len(kids)-1
+		})
+		// the busy child dies for a reason of its own; its exit is the last one the supervisor waits for
+		own := (it / 3) % 2
+		if it >= 6 {
+			own = c.Rng.Intn(2)
+		}
+		if own == 0 {
+			k.Node.Kill(busy)
+		}
+		close(b.gate)
+		if own == 1 {
+			// it finishes the blocked callback and then handles the forwarded shutdown normally
+		}
+		waitUntilGone(k, sup)
+		c10settle(k, l)
+		var reason error
+		for _, e := range l.snapshot() {
+			if e.kind == "term" && e.pid == sup {
+				reason = e.reason
+			}
+		}
+		r.Case(fmt.Sprintf("supreason/%d/%d/%d/%v/%d", spec.SupType, spec.Strategy, own, spec.Keep, it), own == 0)
+		rp := map[string]interface{}{"supervisor": specString(spec), "last_child_died_by": []string{"kill", "forwarded shutdown"}[own]}
+		if k.Alive(sup) {
+			r.Count("inconclusive:sup-alive")
+			k.Node.Kill(sup)
+			continue
+		}
+		if reason == nil || !strings.Contains(reason.Error(), cause.Error()) {
+			r.Violation("C05/supervisor-shutdown-reason", fmt.Sprintf("a supervisor shut down by an exit signal (%q) terminated with reason %v", cause, reason), rp)
+		}
+		r.Count("supreason")
+	}
+}
